@@ -1814,6 +1814,12 @@ void Router::markPolylineConnectorsNeedingReroutingForDeletedObstacle(
             const Point& p1 = i->point;
             const Point& p2 = i->shNext->point;
 
+            // The rotation case below rewrites start and end in the frame
+            // of the current edge, so begin each edge from the route's
+            // real endpoints.
+            start = conn->m_route.ps[0];
+            end = conn->m_route.ps[conn->m_route.size() - 1];
+
             double offy;
             double a;
             double b;
